@@ -196,6 +196,10 @@ func readValue(data []byte, offset, typID, length int) (interface{}, int) {
 		if val == nil {
 			return nil, max(consumed, 1)
 		}
+		if len(val) == 0 {
+			// a stored empty value (header only) is not NULL
+			return emptyVarlenaValue(typID), consumed
+		}
 		return DecodeType(val, typID), consumed
 	}
 
@@ -206,6 +210,17 @@ func readValue(data []byte, offset, typID, length int) (interface{}, int) {
 		}
 	}
 	return string(remaining), len(remaining)
+}
+
+// emptyVarlenaValue is the decoding of a zero-length varlena payload
+func emptyVarlenaValue(typID int) interface{} {
+	switch typID {
+	case OidText, OidVarchar, OidBpchar:
+		return ""
+	case OidBytea:
+		return "\\x"
+	}
+	return nil
 }
 
 // isShortVarlena checks if data starts with a short varlena header
